@@ -57,6 +57,22 @@ add('C04', 'runtime monitoring: constructor outcome of valid random hosts with e
     'DESIGN.md section 3, C04')
 
 
+add('C06', 'runtime monitoring: responses and the endpoints\' own execution log compared with a reference dispatcher over '
+           'enumerated and random routing tables',
+    'Every 1- and 2-route table over a reduced catalogue (4 patterns x 3 method sets x 5 behaviours) is enumerated and queried; random '
+    'tables of up to 4 routes over 8 patterns x 5 method sets x 9 behaviours are built by constructor list or by add(route, index) with '
+    'negative/overshooting indices; status, answering route, Allow header of 405 and the exact sequence of endpoints that ran are compared '
+    'with the reference (about 88 000 exchanges per quick run).',
+    'DESIGN.md section 3, C06')
+add('C07', 'runtime monitoring: status/Location of each exchange and of the follow-up exchange built from the Location, judged by an '
+           'independent canonicalisation and slash-mode-inheritance model',
+    'Random application trees (slash mode at application level, route opt-out, one or two embeddings with inherit_slashes on/off, '
+    'SCRIPT_NAME set or not) x branch/leaf routes with static/single/multi/int bindings x hostile decoded segments x slash noise x '
+    'query strings x all nine methods; every redirect is followed once and must land on the same route with the same decoded '
+    'parameters and query without a second redirect; 23 000 cases per quick run.',
+    'DESIGN.md section 3, C07')
+
+
 def main():
     present = sorted(p for p in CHECKS if os.path.exists(os.path.join(HERE, 'vt', 'checks', p + '.py')))
     checks = []
